@@ -248,9 +248,11 @@ def judge(tokens, out, want, ra=False):
                     if want == "C18":
                         if cj["n"] > 2 + RETRIES * (NCELL + 3):
                             bad.append("reader %d: %d accesses in one call" % (j, cj["n"]))
+                    if want in ("C18", "C03", "C04"):
                         g1 = cj.get("g1")
                         if g1 is not None and (g1 == 0 or g1 % 2 == 1) and (cj["n"] != 2 or it["ret"] != "C"):
-                            bad.append("reader %d did not answer from its previous snapshot at once although the generation was %d" % (j, g1))
+                            bad.append("reader %d did not answer from its previous snapshot at once although the generation was %d "
+                                       "(update in flight / segment being re-initialised)" % (j, g1))
                     if it["ret"] == "E":
                         continue
                     k = rec_index(it["cells"])
@@ -268,7 +270,8 @@ def judge(tokens, out, want, ra=False):
                     aba = it["ret"] == "C" and cj.get("g1") is not None and cj.get("g1") == cached_gen.get(j)
                     if want == "C03" and not ra:
                         # documented exception: the live generation coincides with the cached one
-                        if not aba and not cj["writer_moved"] and not cj["in_flight_at_entry"] and not in_flight and k != completed:
+                        reinit = cj.get("g1") == 0       # generation 0: the segment reads "being re-initialised", the cache is served by design
+                        if not aba and not reinit and not cj["writer_moved"] and not cj["in_flight_at_entry"] and not in_flight and k != completed:
                             bad.append("reader %d returned publication %d although %d was complete and the writer idle during the call" % (j, k, completed))
                     last_ret[j] = k
     return bad
@@ -351,8 +354,11 @@ def gen_wrap(rng):
     publications, a crash in the update that passes through 65535."""
     R13 = [("R", 0, None)] * 13
     W11 = [("W",)] * 11
-    kind = rng.randrange(4)
-    if kind == 0:      # follow the counter through the wrap
+    kind = rng.randrange(5)
+    if kind == 4:      # the segment reads "being re-initialised" (generation 0) while clients hold a record
+        toks = W11 + [("N",)] + R13 + [("W",)] * rng.choice([0, 11]) + [("J", 0)] + [("R", 0, None)] * rng.choice([2, 13]) + [("N",)]
+        toks += [("W",)] * rng.choice([3, 11]) + R13 + W11 + R13
+    elif kind == 0:    # follow the counter through the wrap
         toks = W11 + [("J", rng.choice([65526, 65528, 65530, 65532]))] + [("N",)] + R13
         for _ in range(rng.randrange(3, 9)):
             toks += [("W",)] * rng.choice([11, 11, 5, 6]) + [("R", 0, None)] * rng.choice([13, 13, 2, 7])
